@@ -109,8 +109,15 @@ func Pick[T any](c *Check, q, t T) T {
 	return q
 }
 
+// loadKnown reads /verif/known_findings.txt.  Lines:
+//
+//	known: property=<id> <signature> :: <what fails>
+//	fixed: property=<id> <commit> <what failed>
+//
+// Only "known" lines suppress (and are echoed as KNOWN-FINDING); "fixed" lines
+// are documentation and suppress nothing.  The file is never written at run time.
 func (c *Check) loadKnown() {
-	f, err := os.Open(filepath.Join(Root, "known_findings.jsonl"))
+	f, err := os.Open(filepath.Join(Root, "known_findings.txt"))
 	if err != nil {
 		return
 	}
@@ -119,13 +126,12 @@ func (c *Check) loadKnown() {
 	sc.Buffer(make([]byte, 1<<20), 1<<20)
 	for sc.Scan() {
 		line := strings.TrimSpace(sc.Text())
-		if line == "" {
+		rest, ok := strings.CutPrefix(line, "known: property="+c.ID+" ")
+		if !ok {
 			continue
 		}
-		var fd Finding
-		if json.Unmarshal([]byte(line), &fd) == nil && fd.Property == c.ID {
-			c.known = append(c.known, fd)
-		}
+		sig, what, _ := strings.Cut(rest, " :: ")
+		c.known = append(c.known, Finding{Property: c.ID, Signature: strings.TrimSpace(sig), What: strings.TrimSpace(what), Status: "known"})
 	}
 }
 
